@@ -59,6 +59,14 @@ def answer (line : String) : String :=
       | some r => ",".intercalate (r.map fun i => match i with
           | .trim => "T" | .limit n => s!"L{n}" | .other k => s!"O{k}")
     | _, _ => "bad-op"
+  | ["cli", tr, mx, pr, lim, ctr] =>
+    -- tr/pr/ctr: 0|1; mx, lim: `N` | <n>  → the assembled list of a CLI run
+    let o (x : String) : Option (Option Nat) := if x = "N" then some none else x.toNat?.map some
+    match o mx, o lim with
+    | some mx, some lim =>
+      ",".intercalate ((cliProcessors (tr = "1") mx (pr = "1") lim (ctr = "1")).map fun i => match i with
+        | .trim => "T" | .limit n => s!"L{n}" | .other k => s!"O{k}")
+    | _, _ => "bad-op"
   | ["isws", n] =>
     match n.toNat? with
     | some k => if isWs (Char.ofNat k) then "1" else "0"
